@@ -31,7 +31,7 @@ use std::sync::mpsc;
 use std::sync::{Arc, Mutex};
 use std::time::{Duration, Instant};
 use vharness::stream::{NumEntry, StreamCtl, capture};
-use vharness::{sched, trace, util};
+use vharness::{trace, util};
 
 const BUDGET: Duration = Duration::from_secs(10);
 
@@ -551,8 +551,9 @@ fn replay_one(lane: &mut Lane, b: &Value, seed: u64) -> Value {
                 mism.push(json!({"step": i, "what": format!("sink {} received altered entries", k + 1), "entries": gl.bad_payload}));
             }
             if sinks.is_async[k] && att != k + 1 && op == "DropHandle" && exp_s == k + 1 && (gl.flushed != gl.got.len() || !gl.closed) {
-                mism.push(json!({"step": i, "what": format!("detached sink {}: stream not flushed/closed when the handle drop returned", k + 1),
-                                 "flushed": gl.flushed, "written": gl.got.len(), "closed": gl.closed}));
+                mism.push(json!({"step": i, "what": format!("detached sink {}: state of its stream when the handle drop returned", k + 1),
+                                 "expected": "everything written is flushed, stream closed",
+                                 "got": format!("written {}, flushed {}, closed {}", gl.got.len(), gl.flushed, gl.closed)}));
             }
         }
         if mism.len() > 8 {
@@ -676,8 +677,46 @@ struct Race {
 
 const TAGS: [&str; 3] = ["1", "2", "3"];
 
+// Schedule perturbation for the race runs: only the point between destination lookup and append
+// (`gs.lookup`, inside `try_append`) is delayed.  Delaying the queue's own points as well would slow
+// the handle drop down more than it widens the window this check is about.
+static P_PERMILLE: std::sync::atomic::AtomicU32 = std::sync::atomic::AtomicU32::new(0);
+static P_MAX_US: std::sync::atomic::AtomicU32 = std::sync::atomic::AtomicU32::new(0);
+static P_SEED: std::sync::atomic::AtomicU64 = std::sync::atomic::AtomicU64::new(0);
+thread_local! { static P_RNG: std::cell::Cell<u64> = const { std::cell::Cell::new(0) }; }
+
+fn install_lookup_perturbation() {
+    use std::sync::atomic::Ordering::Relaxed;
+    metrique_writer_core::verif::install(Some(Arc::new(|name, _args| {
+        if name != "gs.lookup" {
+            return;
+        }
+        let permille = P_PERMILLE.load(Relaxed);
+        if permille == 0 {
+            return;
+        }
+        let r = P_RNG.with(|c| {
+            let mut x = c.get();
+            if x == 0 {
+                use std::hash::{Hash, Hasher};
+                let mut h = std::collections::hash_map::DefaultHasher::new();
+                std::thread::current().id().hash(&mut h);
+                x = (P_SEED.load(Relaxed) ^ h.finish()) | 1;
+            }
+            x ^= x << 13;
+            x ^= x >> 7;
+            x ^= x << 17;
+            c.set(x);
+            x
+        });
+        if (r % 1000) < permille as u64 {
+            let us = (r >> 24) % (P_MAX_US.load(Relaxed).max(1) as u64);
+            std::thread::sleep(Duration::from_micros(us));
+        }
+    })));
+}
+
 fn run_race(sc: &Race, type_idx: &mut usize) {
-    let ctrl = sched::controller();
     let g: &'static GOps = loop {
         let g = &GLOBALS[*type_idx % GLOBALS.len()];
         if !attached(g) {
@@ -687,11 +726,9 @@ fn run_race(sc: &Race, type_idx: &mut usize) {
     };
     trace::set_epoch(sc.id);
     trace::ev(json!({"ev": "Reset", "scenario": sc.id as i64}));
-    if sc.permille > 0 {
-        ctrl.begin_perturb(sc.seed, sc.permille, sc.max_us, false);
-    } else {
-        ctrl.free_run();
-    }
+    P_SEED.store(sc.seed, std::sync::atomic::Ordering::Relaxed);
+    P_MAX_US.store(sc.max_us, std::sync::atomic::Ordering::Relaxed);
+    P_PERMILLE.store(sc.permille, std::sync::atomic::Ordering::Relaxed);
     let start = Arc::new(std::sync::Barrier::new(sc.appenders as usize + sc.ctls.len()));
     let mut threads = Vec::new();
     for p in 1..=sc.appenders {
@@ -768,7 +805,7 @@ fn run_race(sc: &Race, type_idx: &mut usize) {
         let _ = t.join();
     }
     trace::evi("Quiesce", &[]);
-    ctrl.free_run();
+    P_PERMILLE.store(0, std::sync::atomic::Ordering::Relaxed);
     if attached(g) {
         *type_idx += 1;
     }
@@ -792,6 +829,7 @@ fn annotate(evs: &mut [Value]) {
 
 fn cmd_race(a: &HashMap<String, String>) {
     std::panic::set_hook(Box::new(|_| {}));
+    install_lookup_perturbation();
     let scen = util::read_ndjson(util::arg_str(a, "scenarios", ""));
     let mut out = std::io::BufWriter::new(std::fs::File::create(util::arg_str(a, "out", "")).unwrap());
     let mut meta = std::io::BufWriter::new(std::fs::File::create(util::arg_str(a, "meta", "")).unwrap());
